@@ -134,6 +134,9 @@ def cases(tier):
     rc = X.resolver_cases()
     for lo in range(0, len(rc), 8 * CHUNK):
         yield {"fam": "resolver", "lo": lo, "hi": min(len(rc), lo + 8 * CHUNK)}
+    rc2 = X.root_combinations()
+    for lo in range(0, len(rc2), 2 * CHUNK):
+        yield {"fam": "root-combination", "lo": lo, "hi": min(len(rc2), lo + 2 * CHUNK)}
     pc = X.precedence_cases()
     for lo in range(0, len(pc), 2 * CHUNK):
         yield {"fam": "resolver-precedence", "lo": lo, "hi": min(len(pc), lo + 2 * CHUNK)}
@@ -294,10 +297,12 @@ def eval_violations(vlist, st=None, singles_cache=None):
                 if any(c.startswith(("missed:", "unnamed:", "crash:")) for c, _ in alone):
                     continue
                 others = [labels[j] for j in range(len(vlist)) if j != k]
-                rel = "same-owner" if X.related(v, vlist[1 - k]) else "elsewhere"
+                rel = "same-owner" if any(X.related(v, vlist[j]) for j in range(len(vlist)) if j != k) else "elsewhere"
                 cls = "not-all-reported:%s|with:%s|%s" % (labels[k], "+".join(others), rel)
                 if others == ["bad-name:type"] and rel == "same-owner":
                     cls = "not-all-reported:inside-type-with-invalid-name"
+                if labels[k].startswith("root-") and any(o.startswith("root-") for o in others):
+                    cls = "not-all-reported:%s|with-another-root-violation" % labels[k].split(":")[0]
                 out.append(
                     (
                         cls,
@@ -722,6 +727,10 @@ def check_case(case, st):
         for rc in X.resolver_cases()[case["lo"] : case["hi"]]:
             for cls, detail in eval_resolver(rc, st):
                 out.append((cls, {"fam": "resolver", "case": list(rc)}, detail))
+    elif fam == "root-combination":
+        for vl in X.root_combinations()[case["lo"] : case["hi"]]:
+            for cls, detail in eval_violations(vl, st):
+                out.append((cls, {"fam": "violation", "v": vl}, detail))
     elif fam == "resolver-precedence":
         for c in X.precedence_cases()[case["lo"] : case["hi"]]:
             for cls, detail in eval_precedence(c, st):
